@@ -22,6 +22,7 @@ type RecEvent struct {
 	StructTry  bool // whether such a call was attempted
 	ProbeError string
 	Vals       map[int][]byte // component values read inside the callback (non-removal events)
+	QueryError string         // what a query opened inside the callback got wrong
 }
 
 // Recorder is a listener that records every event. Subs/Comps configure what it subscribes
@@ -32,6 +33,8 @@ type Recorder struct {
 	All   []RecEvent // everything since installation
 	Cur   []RecEvent // events of the current op
 	Probe func(w *ecs.World, e ecs.EntityEvent) string
+	// QueryInside: open a Query(All()) inside every callback and judge what it visits.
+	QueryInside bool
 	// ReadVals reads the entity's component values inside the callback (component index -> bytes).
 	ReadVals func(w *ecs.World, e ecs.Entity) map[int][]byte
 	TryWrite bool // attempt a structural call inside removal events
@@ -66,6 +69,29 @@ func (r *Recorder) Notify(w *ecs.World, e ecs.EntityEvent) {
 		p := Call(func() { w.NewEntity() })
 		re.StructOK = p == nil
 	}
+	if r.QueryInside {
+		// a query opened inside the callback (legal also in removal events: the world is only
+		// locked) visits alive entities only, each once
+		seen := map[ecs.Entity]bool{}
+		q := w.Query(ecs.All())
+		for q.Next() {
+			x := q.Entity()
+			if !w.Alive(x) {
+				re.QueryError = fmt.Sprintf("Query(All()) opened inside the callback for %v (event types %06b) visits %v, which is not alive", e.Entity, e.EventTypes, x)
+				q.Close()
+				break
+			}
+			if seen[x] {
+				re.QueryError = fmt.Sprintf("Query(All()) opened inside the callback for %v (event types %06b) visits %v twice", e.Entity, e.EventTypes, x)
+				q.Close()
+				break
+			}
+			seen[x] = true
+		}
+		if re.QueryError == "" && len(seen) != w.Stats().Entities.Used {
+			re.QueryError = fmt.Sprintf("Query(All()) opened inside the callback for %v (event types %06b) visits %d entities, Stats reports %d alive", e.Entity, e.EventTypes, len(seen), w.Stats().Entities.Used)
+		}
+	}
 	if r.Probe != nil {
 		re.ProbeError = r.Probe(w, e)
 	}
@@ -84,7 +110,17 @@ func (r *Recorder) Begin() { r.Cur = r.Cur[:0] }
 
 // InstallRecorder installs a recorder subscribed to everything.
 func (b *WB) InstallRecorder() {
-	b.Rec = &Recorder{Subs: event.All, TryWrite: true, ReadVals: b.readVals}
+	b.Rec = &Recorder{Subs: event.All, TryWrite: true, ReadVals: b.readVals, QueryInside: true}
+	if HooksEnabled {
+		// "events are emitted after the change is applied" (removal events: before the removal): in
+		// both cases the world a callback looks at is a complete, consistent one
+		b.Rec.Probe = func(w *ecs.World, e ecs.EntityEvent) string {
+			if err := CheckInvariants(w); err != nil {
+				return "the world is not in a consistent state inside the callback: " + err.Error()
+			}
+			return ""
+		}
+	}
 	b.W.SetListener(b.Rec)
 }
 
@@ -227,6 +263,7 @@ type pendingEvent struct {
 func (s *Sim) flushEvents() {
 	s.checkDeliveryLocks()
 	s.checkDeliveryValues()
+	s.checkCallbackQueries()
 	pend := s.pendingEvents
 	s.pendingEvents = nil
 	if len(pend) == 0 || s.Done() {
@@ -272,6 +309,25 @@ func (s *Sim) checkDeliveryLocks() {
 			}
 			if !removal && (g.Locks > 0 || (g.Locks < 0 && g.Locked)) {
 				s.Report(finding(CatLock, "%s: event for %v (event types %06b) delivered with the world locked although no query is open", b.Name, g.Evt.Entity, g.Evt.EventTypes))
+				return
+			}
+		}
+	}
+}
+
+// checkCallbackQueries reports what queries opened inside listener callbacks got wrong (C03: a query
+// visits alive matching entities, each once - whenever it is opened).
+func (s *Sim) checkCallbackQueries() {
+	if s.Done() || !s.Cfg.Owned[CatScan] {
+		return
+	}
+	for _, b := range s.Worlds() {
+		if b.Rec == nil {
+			continue
+		}
+		for i := range b.Rec.Cur {
+			if m := b.Rec.Cur[i].QueryError; m != "" {
+				s.Report(finding(CatScan, "%s: %s", b.Name, m))
 				return
 			}
 		}
